@@ -288,7 +288,8 @@ def root_local(scope, e):
             e = e["a"]
         elif k == "index":
             e = e["a"]
-        elif k == "mcall" and e["m"] in TRANSPARENT_M | {"iter", "as_slice", "into_iter", "enumerate", "escape_debug"}:
+        elif k == "mcall" and e["m"] in TRANSPARENT_M | {"iter", "as_slice", "into_iter", "enumerate", "escape_debug", "trim_end_matches", "trim_start_matches",
+                                                          "trim_matches", "trim", "trim_end", "trim_start"}:
             e = e["recv"]
         elif k == "block" and not e.get("stmts") and e.get("e"):
             e = e["e"]
